@@ -770,6 +770,9 @@ def gen_inf_case(rng, plain=False, extra=None):
         bound = ('*', bound, ('off', len(ops) - 1))
     rel = rng.choice(['le', 'le', 'ge'] if plain else ['le', 'le', 'ge', 'two'])
     con = {'grid': 'inf', 'rel': rel, 'offs': [], 'infops': ops, 'first': True, 'last': True}
+    if rel != 'two':
+        # the same relation in every spelling Python offers: e <= c, e < c, c >= e, c > e (the solver sees no difference between < and <=)
+        con['spelling'] = rng.choice([None, None, 'strict', 'flipped', 'flipped_strict'])
     if rel == 'two':
         con.update(a=[E.C(-abs(G.coef(rng)) - 1)], b=[body], c=[E.C(abs(G.coef(rng)) + 1)])
     else:
@@ -2361,7 +2364,7 @@ class C19(Check):
     pid = "C19"
     level = "other"
     uses_generated = True
-    slices = ["starting-data (max_iter=0)", "converged-results", "unlisted-keep-current", "parameters-of-every-shape"]
+    slices = ["starting-data (max_iter=0)", "converged-results", "unlisted-keep-current", "parameters-of-every-shape", "interval-parameters"]
 
     def explanation(self):
         return ("PARTIAL (solver is a black box). theorems: binding a list of (slot, value) arguments gives every slot of the parameter vector / starting "
@@ -2578,6 +2581,69 @@ class C19(Check):
     def correspondence(self):
         self.lq_slices()
         self.matrix_parameter_slice()
+        self.interval_parameters_slice()
+
+    def interval_parameters_slice(self):
+        """per-interval parameters (grid='control' and grid='control+', one of each) as function arguments vs set_value AFTER the
+        transcription (one number broadcast, or the whole row) followed by solve and sample; arguments not listed keep their values"""
+        import casadi as ca
+        import numpy as np
+        rockit = B.import_rockit()
+        name = "interval-parameters"
+        n = 4 if self.tier == 'quick' else 32
+        rng = self.rng
+        for it in range(n):
+            kind = ['ms', 'dc', 'ss', 'ms'][it % 4]
+            N = rng.randint(2, 4)
+            p0, q0 = rng.randint(1, 6) / 4.0, rng.randint(1, 6) / 2.0
+            broadcast = it % 2 == 0
+            qn = [rng.randint(-6, 6) / 2.0 or 1.5] * (N + 1) if broadcast else [rng.randint(-6, 6) / 2.0 for _ in range(N + 1)]
+            pn = [rng.randint(-4, 4) / 4.0 for _ in range(N)]
+            listed = ['q', 'p'] if (it // 2) % 2 == 0 else ['q']
+            info = {"method": kind, "N": N, "p": p0, "q": q0, "q_new": qn, "p_new": pn, "listed": listed, "broadcast": broadcast}
+            try:
+                with B.quiet():
+                    ocp = rockit.Ocp(t0=0.5, T=1.5)
+                    x = ocp.state(); u = ocp.control()
+                    p_ = ocp.parameter(grid='control'); q = ocp.parameter(grid='control+')
+                    ocp.set_der(x, u + p_)
+                    ocp.add_objective(ocp.integral(u ** 2) + ocp.sum((x - q) ** 2, include_last=True))
+                    ocp.subject_to(ocp.at_t0(x) == 0)
+                    ocp.set_value(p_, p0); ocp.set_value(q, q0)
+                    ocp.solver('ipopt', {'ipopt.print_level': 0, 'print_time': False, 'ipopt.tol': 1e-10, 'ipopt.sb': 'yes'})
+                    ocp.method({'ms': rockit.MultipleShooting(N=N, M=1, intg='rk'), 'ss': rockit.SingleShooting(N=N, M=1, intg='rk'),
+                                'dc': rockit.DirectCollocation(N=N, M=1, degree=2)}[kind])
+                    q_s = ocp.sample(q, grid='control')[1]; p_s = ocp.sample(p_, grid='control-')[1]
+                    x_s = ocp.sample(x, grid='control')[1]; u_s = ocp.sample(u, grid='control-')[1]
+                    f = ocp.to_function('f', [q_s, p_s] if 'p' in listed else [q_s], [x_s, u_s])
+                    fx, fu = f(*([ca.DM([qn]), ca.DM([pn])] if 'p' in listed else [ca.DM([qn])]))
+                    ocp.set_value(q, qn[0] if broadcast else ca.DM([qn]))
+                    if 'p' in listed:
+                        ocp.set_value(p_, ca.DM([pn]))
+                    sol = ocp.solve()
+                    xs = sol.sample(x, grid='control')[1]; us = sol.sample(u, grid='control-')[1]
+                    qv = np.array(sol.sample(q, grid='control')[1]).flatten(); pv = np.array(sol.sample(p_, grid='control-')[1]).flatten()
+            except Exception as ex:
+                self.slice_ok[name] = False
+                self.violation("per-interval parameters through to_function / set_value raised %s: %s" % (type(ex).__name__, str(ex)[:250].replace("\n", " ")), {"case": info},
+                               {"kind": "exception", "what": "interval-parameters"})
+                return
+            self.evaluations += 1
+            self.signatures.add("interval-parameters-%d" % it)
+            self.count("interval-parameters:%s:%s" % (kind, "broadcast" if broadcast else "row"))
+            err = None
+            pw = pn if 'p' in listed else [p0] * N
+            if np.abs(qv - np.array(qn)).max() > 1e-12:
+                err = "after set_value(q, …) on the transcribed problem the solution was computed with q = %s, the value given is %s" % (qv.tolist(), qn)
+            elif np.abs(pv - np.array(pw)).max() > 1e-12:
+                err = "the solution was computed with p = %s, the value in effect should be %s" % (pv.tolist(), pw)
+            elif np.abs(np.array(fx).flatten() - np.array(xs).flatten()).max() > 1e-6 or np.abs(np.array(fu).flatten() - np.array(us).flatten()).max() > 1e-6:
+                err = "function results x=%s u=%s, imperative pipeline x=%s u=%s" % (np.array(fx).flatten().tolist(), np.array(fu).flatten().tolist(),
+                                                                                   np.array(xs).flatten().tolist(), np.array(us).flatten().tolist())
+            if err:
+                self.slice_ok[name] = False
+                self.violation("per-interval parameters (%s, listed %s): %s" % (kind, listed, err), {"case": info}, {"kind": "interval-parameters", "broadcast": broadcast})
+                return
 
     def lq_slices(self):
         n = 24 if self.tier == 'quick' else 240
